@@ -1,7 +1,9 @@
-(* Property C04: storage is transparent.  Pinned so far: the codec layer (packing of 2/4/9-state
-   symbols, LEB128) and the time table; the refinement theorem for the whole store (load_encode)
-   is not closed - see MANIFEST level_claimed. *)
-From WV Require Import Model.Base Model.Bits Model.Leb128 Model.WaveMem Proofs.BitsProofs Proofs.LebProofs Proofs.WaveMemProofs.
+(* Property C04: storage is transparent.  Pinned: the codec layer (packing of 2/4/9-state symbols,
+   LEB128, meta-data word), the value stream (load_fixed_stream), the block layout (region_found,
+   region_decodes), loading over any list of blocks (load_signal_blocks) and the rendering of every
+   stored entry (entry_render, observe_entries).  The encoder-side invariant that ties an operation
+   history to the block list is not closed yet - see MANIFEST level_claimed. *)
+From WV Require Import Model.Base Model.Bits Model.Leb128 Model.WaveMem Proofs.BitsProofs Proofs.LebProofs Proofs.WaveMemProofs Proofs.StoreProofs.
 Open Scope N_scope.
 
 (* write_n_state followed by the symbol extraction of n_state_to_bit_string is the identity for
@@ -30,6 +32,50 @@ Check metadata_roundtrip_compressed :
   meta_decode (meta_encode (meta_compressed mx n)) = Ok (meta_compressed mx n) /\
   match em_comp (meta_compressed mx n) with Compressed len => n <= len | Uncompressed => False end.
 
+(* load_fixed_len_signal over a value stream: the de-duplicated widened entries, time indices = running sums *)
+Check load_fixed_stream :
+  forall mx bits es fuel t acc canon,
+  Forall (wf_sentry mx bits) es -> acc_rep (bpe_of mx bits) acc canon -> (length es < fuel)%nat ->
+  exists acc', load_fixed fuel (enc_stream es) t bits mx acc = Ok acc' /\
+               acc_rep (bpe_of mx bits) acc' (load_spec mx bits es t canon) /\
+               la_strings acc' = la_strings acc.
+
+(* get_value_at on any entry of a loaded signal: the kind it was recorded with and exactly its symbols,
+   for every widest kind of the signal, every width >= 2 and whatever surrounds the entry *)
+Check entry_render :
+  forall mx bits local syms pre post (k : nat),
+  (2 <= bits)%nat -> length syms = bits -> small_syms local syms -> states_num local <= states_num mx ->
+  length pre = (k * bpe_of mx bits)%nat ->
+  get_value_at (SigBits mx bits (snd (get_len_and_meta mx bits)) (bpe_of mx bits)
+                        (pre ++ wide mx bits local (write_n_state_loop local syms 0 None) ++ post)) k
+  = do s <- lookup_all (lookup_table local) syms; Ok (kind_of_states local, s).
+
+(* Reader::load_signal over any list of finished blocks (any segmentation, compressed or raw):
+   the canonical entries of all blocks in order, each block's time index offset added.
+   lz4 is a parameter constrained only by decompress (compress d) = d (assumption A-lz4) *)
+Check load_signal_blocks :
+  forall (lz_compress : list byte -> list byte) (lz_decompress : list byte -> nat -> option (list byte)),
+  (forall d n, (length d <= n)%nat -> lz_decompress (lz_compress d) n = Some d) ->
+  forall id bits (bl : list blk), (2 <= bits)%nat -> Forall (blk_ok id bits) bl ->
+  exists mx,
+    Forall (fun x : blk => let '(_, _, _, se, es) := x in es <> [] -> states_num (se_max se) <= states_num mx) bl /\
+    load_signal lz_decompress (map (blk_block lz_compress) bl) id (EncBits bits)
+    = Ok (mk_signal (map fst (blks_spec mx bits bl 0 []))
+                    (SigBits mx bits (snd (get_len_and_meta mx bits)) (bpe_of mx bits)
+                             (concat (map snd (blks_spec mx bits bl 0 []))))).
+
+(* iter_changes over a signal holding the widened entries of `abs`: time index, kind and characters of each *)
+Check observe_entries :
+  forall mx bits (abs : list aentry), (2 <= bits)%nat -> Forall (aentry_ok mx bits) abs ->
+  observe_signal (mk_signal (map fst (map (wide_of mx bits) abs))
+                            (SigBits mx bits (snd (get_len_and_meta mx bits)) (bpe_of mx bits)
+                                     (concat (map snd (map (wide_of mx bits) abs)))))
+  = outcome_map render_of abs.
+
+Print Assumptions load_fixed_stream.
+Print Assumptions entry_render.
+Print Assumptions load_signal_blocks.
+Print Assumptions observe_entries.
 Print Assumptions metadata_roundtrip_uncompressed.
 Print Assumptions metadata_roundtrip_compressed.
 Print Assumptions pack_unpack.
